@@ -63,6 +63,7 @@ def run(repo, scratch, prop=None, thorough=False):
             f.write('\n\n// ---- appended by /verif/vx/leaf.py (scratch copy only) ----\n' + m['text'])
     env = dict(os.environ, CARGO_NET_OFFLINE='true', CARGO_TARGET_DIR=os.path.join(scratch, 'leaftarget'))
     env.pop('VX_LEAF_THOROUGH', None)
+    env['VX_LEAF_SCRATCH'] = scratch
     if thorough:
         env['VX_LEAF_THOROUGH'] = '1'
     cmd = ['cargo', 'test', '--offline', '--lib', '__vx_leafcheck', '--', '--test-threads=8', '--show-output']
@@ -94,14 +95,18 @@ def run(repo, scratch, prop=None, thorough=False):
             blk = blocks.get(t, '')
             mc = re.search(r'LEAFCHECK leaf=(\S+) cases=(\d+)', blk)
             mf = re.search(r'LEAFCHECK-FAIL leaf=(\S+) (.*)', blk)
+            fails = [d for (_, d) in re.findall(r'LEAFCHECK-FAIL leaf=(\S+) (.*)', blk)]
             covers = re.findall(r'fn (\w+)', ' '.join(re.findall(r'^// covers %s:(.*)' % t, m['text'], re.M)))
             tp = re.findall(r'\bC\d\d\b', ' '.join(re.findall(r'^// props %s:([^\n(]*)' % t, m['text'], re.M)))
-            r = {'test': t, 'module': m['file'], 'covers': covers or [t[len('leaf_'):]], 'target': m['target'], 'bound': m['bound'], 'props': sorted(set(tp)) or m['props'],
+            wh = re.search(r'^// props %s:[^\n(]*\((.*?)\)\s*$' % t, m['text'], re.M | re.S)
+            r = {'test': t, 'module': m['file'], 'what': ' '.join(wh.group(1).replace('//', ' ').split()) if wh else '', 'covers': covers or [t[len('leaf_'):]], 'target': m['target'], 'bound': m['bound'], 'props': sorted(set(tp)) or m['props'],
                  'leaf': (mc.group(1) if mc else mf.group(1) if mf else t[len('leaf_'):]), 'cases': int(mc.group(2)) if mc else 0,
                  # a FAILED test counts as a contract mismatch only if it printed its LEAFCHECK-FAIL line (failing input, got, want);
                  # any other failure (the test itself or the leaf panicked) leaves the question open
                  'outcome': ('pass' if st == 'ok' else 'FAIL' if (st == 'FAILED' and mf) else 'crashed' if st == 'FAILED' else 'not run'),
-                 'detail': (mf.group(2)[:1500] if mf else (blk[-600:] if st == 'FAILED' else ''))}
+                 'detail': (mf.group(2)[:1500] if mf else (blk[-600:] if st == 'FAILED' else '')),
+                 # every mismatch the test printed (one test may report several cases); /verif/check sets aside the listed known findings
+                 'fails': [d[:1500] for d in fails]}
             res['results'].append(r)
     if prop is not None:
         res['results'] = [x for x in res['results'] if prop in x['props']]
